@@ -191,11 +191,11 @@ func checkFieldAssignment(
 		return nil
 	}
 
-	if ptr, ok := receiverType.(*types.Pointer); ok {
+	if ptr, ok := types.Unalias(receiverType).(*types.Pointer); ok {
 		receiverType = ptr.Elem()
 	}
 
-	named, ok := receiverType.(*types.Named)
+	named, ok := types.Unalias(receiverType).(*types.Named)
 	if !ok {
 		return nil
 	}
@@ -245,11 +245,11 @@ func checkIndexAssignment(
 		return nil
 	}
 
-	if ptr, ok := receiverType.(*types.Pointer); ok {
+	if ptr, ok := types.Unalias(receiverType).(*types.Pointer); ok {
 		receiverType = ptr.Elem()
 	}
 
-	named, ok := receiverType.(*types.Named)
+	named, ok := types.Unalias(receiverType).(*types.Named)
 	if !ok {
 		return nil
 	}
@@ -321,11 +321,11 @@ func checkFieldIncDec(
 		return nil
 	}
 
-	if ptr, ok := receiverType.(*types.Pointer); ok {
+	if ptr, ok := types.Unalias(receiverType).(*types.Pointer); ok {
 		receiverType = ptr.Elem()
 	}
 
-	named, ok := receiverType.(*types.Named)
+	named, ok := types.Unalias(receiverType).(*types.Named)
 	if !ok {
 		return nil
 	}
@@ -442,11 +442,11 @@ func checkCompoundLHS(
 		return nil
 	}
 
-	if ptr, ok := receiverType.(*types.Pointer); ok {
+	if ptr, ok := types.Unalias(receiverType).(*types.Pointer); ok {
 		receiverType = ptr.Elem()
 	}
 
-	named, ok := receiverType.(*types.Named)
+	named, ok := types.Unalias(receiverType).(*types.Named)
 	if !ok {
 		return nil
 	}
